@@ -538,6 +538,79 @@ def g_residuals():
     return {'Residuals': (text, js)}
 
 
+@group('ehep')
+def g_ehep():
+    """Escape of HE products: for each of the regions I-V of _run (branches of the if/elif chain selected by corners['<region>']) the sound speed,
+    velocity, pressure and density as functions of (x, t) and the parameters, the energy assembly e = p / rho / (gamma - 1), and the
+    constructor's ttilde; the point-in-polygon region lookup (matplotlib.path, point_on_boundary) is outside the subset"""
+    from py2coq import Interp, Func, free_vars
+    mod = Module(os.path.join(S, 'ehep/ehep.py'))
+    cn = mod.classes['EscapeOfHEProducts']
+    meth = {st.name: st for st in cn.body if isinstance(st, ast.FunctionDef)}
+    text = HEADER % 'exactpack/solvers/ehep/ehep.py'
+    js = {}
+    P = ['D', 'rho_0', 'up', 'xtilde', 'ttilde', 'gamma']
+    selfo = Obj('', {a: ('var', a) for a in P}, frozen=True, name='self')
+
+    def emit(nm, e, comment):
+        nonlocal text
+        fv = free_vars(e)
+        args = [a for a in ['x', 't'] + P + ['p', 'rho'] if a in fv]
+        for v in fv:
+            if v not in args:
+                raise Unsupported('ehep: %s has stray variable %s' % (nm, v))
+        text += '\n' + emit_function(nm, args, e, comment=comment)
+        text += '#[global] Hint Unfold %s : epgen.\n' % nm
+        js[nm] = {'args': args, 'expr': expr_to_json(e)}
+
+    def factory(name):
+        def h(interp_, n, env, base):
+            a = [interp_.ev(x, env) for x in n.args]
+            return interp_.call_func(Func(meth[name], mod), [selfo] + a, {}, n)
+        return h
+    # the for loop over points and its if/elif chain
+    loops = [st for st in meth['_run'].body if isinstance(st, ast.For)]
+    if len(loops) != 1:
+        raise Unsupported('ehep._run: expected one loop over the points')
+    node = [st for st in loops[0].body if isinstance(st, ast.If)][0]
+    found = {}
+    while isinstance(node, ast.If):
+        keys = [n.slice.value for n in ast.walk(node.test) if isinstance(n, ast.Subscript) and isinstance(n.value, ast.Name) and n.value.id == 'corners'
+                and isinstance(n.slice, ast.Constant)]
+        if keys and keys[0] in ('I', 'II', 'III', 'IV', 'V'):
+            interp = Interp(mod, {('method', 'p_rho'): factory('p_rho')})
+            env = {'self': selfo, 'x': ('var', 'x'), 't': ('var', 't')}
+            for a in P:
+                env[{'rho_0': 'rho_0'}.get(a, a)] = ('var', a)
+            r = interp.exec_body([st for st in node.body if not (isinstance(st, ast.Assign) and isinstance(st.targets[0], ast.Name) and st.targets[0].id == 'reg')], env)
+            found[keys[0]] = {k: env[k] for k in ('cs', 'u', 'p', 'rho')}
+        node = node.orelse[0] if node.orelse and isinstance(node.orelse[0], ast.If) else None
+    if sorted(found) != ['I', 'II', 'III', 'IV', 'V']:
+        raise Unsupported('ehep._run: regions found %s' % sorted(found))
+    for reg in ('I', 'II', 'III', 'IV', 'V'):
+        for k in ('cs', 'u', 'p', 'rho'):
+            emit('ehep_%s_%s' % (reg, k), found[reg][k], 'EscapeOfHEProducts._run, region %s: %s' % (reg, k))
+    # energy assembly: the statement e = p / rho / (gamma - 1.0) inside `if rho != 0`
+    interp = Interp(mod, {})
+    ee = None
+    for st in ast.walk(loops[0]):
+        if isinstance(st, ast.Assign) and isinstance(st.targets[0], ast.Name) and st.targets[0].id == 'e' and not isinstance(st.value, ast.Constant):
+            ee = interp.ev(st.value, {'p': ('var', 'p'), 'rho': ('var', 'rho'), 'gamma': ('var', 'gamma')})
+    if ee is None:
+        raise Unsupported('ehep._run: energy assembly not found')
+    emit('ehep_sie', ee, 'EscapeOfHEProducts._run: specific internal energy from p, rho')
+    # constructor: ttilde
+    interp = Interp(mod, {})
+    tt = None
+    for st in meth['__init__'].body:
+        if isinstance(st, ast.Assign) and isinstance(st.targets[0], ast.Attribute) and st.targets[0].attr == 'ttilde':
+            tt = interp.ev(st.value, {'self': Obj('', {a: ('var', a) for a in P if a != 'ttilde'}, frozen=True, name='self')})
+    if tt is None:
+        raise Unsupported('ehep.__init__: ttilde not found')
+    emit('ehep_ttilde', tt, 'EscapeOfHEProducts.__init__: self.ttilde')
+    return {'Ehep': (text, js)}
+
+
 def methods_group(relpath, outname, specs):
     """specs: list of (coq prefix, class, [self attribute names], [(method, [arg names])])"""
     from gen import translate_method, nan_cond, strip_nan
